@@ -1649,6 +1649,13 @@ fn main() {
                 c.rng = Rng(s);
                 with_static!(n, c11(&mut *c, n));
                 if n <= 9 {
+                    // shared BDD size of lists of functions: identical lists on both types
+                    c.rng = Rng(s);
+                    c07::<Lut>(c, n);
+                    c.rng = Rng(s);
+                    with_static!(n, c07(&mut *c, n));
+                }
+                if n <= 9 {
                     // ordering, equality, hashing, the iterator: identical pairs on both types
                     c.rng = Rng(s);
                     c08::<Lut>(c, n);
